@@ -393,6 +393,12 @@ func (b *Broker) RegisterPipeline(def Pipeline, opt ...Option) error {
 		registrationPolicy: opts.withPipelineRegistrationPolicy,
 	}
 
+	// If this registration overwrites an existing pipeline, the nodes of the
+	// pipeline being replaced are no longer referenced by it.
+	if replaced, err := g.roots.Nodes(def.PipelineID); err == nil {
+		b.releaseNodes(replaced)
+	}
+
 	// Store the pipeline and then update the reference count of the nodes in that pipeline.
 	g.roots.Store(def.PipelineID, pipelineReg)
 	for _, id := range def.NodeIDs {
